@@ -4,6 +4,15 @@ from harness.drivers import lazy, linalg_drv
 
 
 def run(ck):
+    # Machine.tla: TLC checks Impl |= Props on the bounded instance and exports programs (spec -> code)
+    from vlib import machine
+    from harness import gen as _gen
+    _tids = _gen.Tids(100000)
+    mprogs = []
+    mprogs += machine.run_machine(ck, "Z2", "fermionic", "PoolZ2t", "OpsPhase", rank=2, depth=3, mod=40, tids=_tids)
+    if ck.tier != "quick":
+        mprogs += machine.run_machine(ck, "U1", "fermionic", "PoolU1t", "OpsPhase", rank=2, depth=3, mod=100, tids=_tids)
+    ck.conform(mprogs)
     q = ck.tier == "quick"
     tids = gen.Tids()
     progs = lazy.programs(ck.seed, 80 if q else 1500, tids=tids)
